@@ -113,7 +113,7 @@ def overflow_is_out_of_domain(oracles_steps_counts, limit="1e280"):
   return False
 
 
-def check_series(ctx, kind, toks, orc, step, idxs, where, scale_r=False, drift=True, rel=1e-9, fmt=None):
+def check_series(ctx, kind, toks, orc, step, idxs, where, scale_r=False, drift=True, rel=1e-9, fmt=None, strict=False):
   """tokens[i] == f(i*step) (optionally times r) for the sampled indices."""
   ok_all = True
   for i in idxs:
@@ -127,6 +127,6 @@ def check_series(ctx, kind, toks, orc, step, idxs, where, scale_r=False, drift=T
     if scale_r:
       ab = ab * x
     ok = oracle.check_value(ctx, kind, toks[i], orc, x, factor=(x if scale_r else 1), rel=rel, abs_=ab,
-                            where="%s i=%d x=%s" % (where, i, mp.nstr(x, 10)), fmt=fmt)
+                            where="%s i=%d x=%s" % (where, i, mp.nstr(x, 10)), fmt=fmt, strict=strict)
     ok_all = ok_all and ok
   return ok_all
